@@ -117,7 +117,9 @@ def run(tier):
     collectlib.deviation_must_fail(out, 'Clause_Items', 'C07_ModDocs', 2, 'SkipClauseBodies')
     for dev in ('CollectNestedClass', 'CollectMainGuard', 'CollectSetters', 'VisitFunctionBody', 'NoAsyncVisit'):
         collectlib.deviation_must_fail(out, 'C07_Items', 'C07_ModDocs', 2 if dev != 'CollectSetters' else 3, dev)
-    from . import c17, corpus_collect
+    from . import c17, corpus_collect, googlelib
+    # the grouping of a google-style docstring into blocks, line by line (GoogleBlocks.tla)
+    googlelib.google_phase(out, tier)
     c17.package_phase(out, tier)
     # code -> spec on real modules: the visitor model evaluated by TLC on the item lists of real files = the real collector
     roots = [common.SRC, os.path.join(common.REPO, 'tests')]
